@@ -314,6 +314,43 @@ def shared_layout(ctx):
                     'their frame instruction', cs.file, cs.line)
 
 
+def const_lookup_order(ctx):
+    repo = ctx.repo
+    rule = 'C13.const-lookup-order-agrees-with-compiler'
+    ctx.rule(rule, 'the debugger resolves a CONST name in the same order as '
+             'the compiler: the current routine\'s local CONSTs shadow the '
+             'module-level ones (sibling agreement of '
+             'CompilationUnit.eval_lvalue and QvmEval.eval_lvalue)')
+    from ..astutil import canon
+    orders = {}
+    for mod, qn in (('qbee.compiler', 'CompilationUnit.eval_lvalue'),
+                    ('qvm.eval', 'QvmEval.eval_lvalue')):
+        f = repo.func(mod, qn)
+        order = []
+        for n in ast.walk(f.node):
+            if isinstance(n, ast.If) and any(isinstance(s, ast.Return)
+                                             for s in n.body):
+                t = canon(n.test, f.node)
+                has_l = 'local_consts' in t
+                has_g = 'global_consts' in t
+                if has_l != has_g:
+                    order.append((n.lineno, 'local' if has_l else 'global'))
+        order.sort()
+        orders[qn] = [k for _, k in order]
+        ctx.instance(rule, f'{f.file}:{qn}', sample={'order': orders[qn]})
+    a, b = orders.values()
+    if a[:2] != ['local', 'global']:
+        raise AnalysisError('anchor vanished: const lookup order in '
+                            'CompilationUnit.eval_lvalue')
+    if b[:2] != a[:2]:
+        f = repo.func('qvm.eval', 'QvmEval.eval_lvalue')
+        ctx.finding(rule, f'{f.file}:QvmEval.eval_lvalue:const-order',
+                    f'the debugger looks CONST names up in order {b} but '
+                    f'the compiler in order {a}: inside a procedure a local '
+                    f'CONST that shadows a module-level one evaluates to '
+                    f'the wrong value', f.file, f.line)
+
+
 def run(ctx):
     ctx.clauses = [
         'evaluation is read-only (effects over the call tree of do_print)',
@@ -331,6 +368,7 @@ def run(ctx):
     partial_arith(ctx, reach, caught)
     frame_guard(ctx)
     shared_layout(ctx)
+    const_lookup_order(ctx)
     return ('Effects and escape analysis over the class-hierarchy call graph '
             'rooted at Cmd.do_print: no machine-state write and no CPU '
             'handler is reachable; explicit raises on that path are compared '
